@@ -73,7 +73,7 @@ def _spawn(modname, cases, variant, threads, logdir, repo, extra_env=None):
         "PYTHONDONTWRITEBYTECODE": "1", "NUMBA_NUM_THREADS": str(max(1, threads)),
         "MPLBACKEND": "Agg",
     })
-    env.setdefault("OPENBLAS_NUM_THREADS", str(threads))
+    env["OPENBLAS_NUM_THREADS"] = "1"  # no nested BLAS teams inside the OpenMP regions (16 x 16 threads otherwise)
     env.update(variant_env(variant, logdir))
     if extra_env:
         env.update(extra_env)
